@@ -193,7 +193,8 @@ func WorkerMain(d Driver, a *Args) int {
 	for idx := a.Worker; idx < n; idx += a.Workers {
 		if pf != nil {
 			// which item is in flight: if this process dies, the parent knows where
-			pf.WriteAt([]byte(fmt.Sprintf("%-12d", idx)), 0) //nolint:errcheck
+			pf.WriteAt([]byte(fmt.Sprintf("%-12d %-12d", idx, 0)), 0) //nolint:errcheck
+			beatFile, beatItem = pf, idx
 		}
 		d.RunItem(idx, ctx)
 		ctx.Inc("items", 1)
@@ -318,6 +319,9 @@ func ParentMain(d Driver, a *Args) int {
 			// the worker died: that is an outcome of the item it was running
 			pb, _ := os.ReadFile(filepath.Join(a.OutDir, fmt.Sprintf("w%d.progress", r.i)))
 			item := strings.TrimSpace(string(pb))
+			if f := strings.Fields(item); len(f) > 0 {
+				item = f[0]
+			}
 			if r.err == errWatchdog {
 				fmt.Fprintf(os.Stderr, "check: watchdog: worker %d made no progress for %v at item %s\n", r.i, watchdogLimit, item)
 				trouble = true
@@ -347,9 +351,6 @@ func ParentMain(d Driver, a *Args) int {
 			continue
 		}
 		total.merge(&st)
-	}
-	if trouble {
-		return 2
 	}
 	total.seal()
 
@@ -419,6 +420,11 @@ func ParentMain(d Driver, a *Args) int {
 		fmt.Println(l)
 	}
 
+	if dump := os.Getenv("VERIF_DUMP"); dump != "" {
+		// determinism self-test: everything the run computed, nothing that depends on wall time
+		b, _ := json.Marshal(map[string]any{"counters": total.Counters, "hashes": total.Hashes, "sched": total.SchedHashes, "violations": violLines, "known": knownLines})
+		os.WriteFile(dump, b, 0o644) //nolint:errcheck
+	}
 	wall := time.Since(start).Seconds()
 	ev := &Evidence{PropertyID: a.Prop, Tier: a.Tier, Seed: int64(a.Seed), Level: d.Level(), WallS: wall, Violations: nViol,
 		Coverage: map[string]any{}}
@@ -460,6 +466,9 @@ func ParentMain(d Driver, a *Args) int {
 	if nViol > 0 {
 		return 1
 	}
+	if trouble {
+		return 2 // watchdog / worker-output trouble and nothing else to report
+	}
 	return 0
 }
 
@@ -472,6 +481,26 @@ func uniq(s []string) []string {
 		}
 	}
 	return out
+}
+
+var (
+	beatFile *os.File
+	beatN    uint64
+	beatLast time.Time
+	beatItem int
+)
+
+// Heartbeat tells the parent's watchdog that the worker is alive inside a long
+// item. It only touches the progress file (wall clock is used for nothing else).
+func Heartbeat() {
+	beatN++
+	if beatFile == nil || beatN%64 != 0 {
+		return
+	}
+	if now := time.Now(); now.Sub(beatLast) > 500*time.Millisecond {
+		beatLast = now
+		beatFile.WriteAt([]byte(fmt.Sprintf("%-12d %-12d", beatItem, beatN)), 0) //nolint:errcheck
+	}
 }
 
 // ScratchDir is the check's scratch directory (plain copy of the tree, binaries).
